@@ -394,28 +394,6 @@ fn first_diff(a: &[String], b: &[String]) -> String {
     "no difference".into()
 }
 
-/// F17 / F17b mechanism test: the matcher's verdict on a `term`-terminated line depends on what surrounds the
-/// line (its anchors / word boundaries are LF-based because it was built without the NUL line
-/// terminator): for some line, "matches when asked about the line alone" differs from "matches within
-/// the line when asked in the whole input".  Without such a line the class may not be used.
-fn f17_mechanism(m: &RegexMatcher, inp: &[u8], term: u8) -> bool {
-    use grep_matcher::Matcher;
-    let mut s = 0usize;
-    while s < inp.len() {
-        let e = inp[s..].iter().position(|&b| b == term).map_or(inp.len(), |i| s + i);
-        let alone = m.is_match(&inp[s..e]).unwrap_or(false);
-        let in_ctx = match m.find_at(inp, s) {
-            Ok(Some(mt)) => mt.start() <= e && mt.end() <= e,
-            _ => false,
-        };
-        if alone != in_ctx {
-            return true;
-        }
-        s = e + 1;
-    }
-    false
-}
-
 /// F2 / F24 mechanism test for LF / CRLF: some line's verdict "asked alone, terminator stripped" differs
 /// from "a match inside the line's content when asked in the whole input".
 fn linesafe_mechanism(m: &RegexMatcher, inp: &[u8], crlf: bool) -> bool {
@@ -461,24 +439,20 @@ fn transcoded_text(d: &Ds, inp: &[u8]) -> Option<Vec<u8>> {
     Some(out)
 }
 
-/// `Core::is_line_by_line_fast` for the matcher / searcher of this case before any match, computed
-/// from what the matcher object really announces (grep-regex is not under test here): note that a
-/// `RegexMatcher` built with a line terminator reports `line_terminator() = None` when it uses its
-/// inner-literal line regex, so even a NUL-terminator matcher can end up on the fast path through
-/// `non_matching_bytes`.
+/// `Core::is_line_by_line_fast` for the matcher / searcher of this case before any match, by the rule
+/// (since /repo a2e984b: never with a terminator byte other than `\n`, whatever the matcher
+/// announces), computed from what the matcher object really announces (grep-regex is not under test).
 fn fast_path_taken(d: &Ds, m: &RegexMatcher) -> bool {
     use grep_matcher::Matcher;
     if d.passthru || (d.son && d.invert) {
         return false;
     }
+    if lt_byte(d.lt) != b'\n' {
+        return false;
+    }
     let lt = lt_term(d.lt);
-    if let Some(t) = m.line_terminator() {
-        if t.as_byte() == 0 {
-            return false;
-        }
-        if t == lt {
-            return true;
-        }
+    if m.line_terminator() == Some(lt) {
+        return true;
     }
     m.non_matching_bytes().map_or(false, |nm| nm.contains(lt_byte(d.lt)))
 }
@@ -516,7 +490,7 @@ fn classify(d: &Ds, m: &RegexMatcher, inp: &[u8], reader_strategy: bool, spec: &
     // (3) the fast path was taken; (4) the other strategy goes through the roll buffer (two slice
     // searches see the same buffer extent); (5) the refused callback is a context line / break, or
     // the search is inverted (a refused `matched` on the non-inverted fast path has `pos` at its end).
-    if let Some(k) = d.stop {
+    if let (Some(k), false) = (d.stop, std::env::var("RGV_C02_F10B_FIXED").is_ok()) {
         if spec.len() == got.len() && spec.len() >= 2 {
             let n = spec.len() - 1;
             let only_count = spec[..n] == got[..n]
@@ -543,29 +517,16 @@ fn classify(d: &Ds, m: &RegexMatcher, inp: &[u8], reader_strategy: bool, spec: &
     if transcoder_mechanism(d, m, inp, reader_strategy, got, false) {
         return "transcoder-drops-pending-bytes-at-eof";
     }
-    // F17 `nul-terminator-lf-anchored-matcher`.  Mechanism: the searcher splits on NUL, the matcher
-    // was built as rg builds it for `-U --null-data` (no NUL line terminator on it, so `^` `$` `\b`
-    // stay LF / haystack based); the pattern cannot match NUL, so the fast path asks the matcher about
-    // whole buffers and its verdict depends on where a buffer starts and ends.
-    // The same holds for every other look-around of such a matcher (`\A`, `\z`, `\B`, `(?-m:^)` …).
-    // Test: (1) NUL terminator; (2) matcher built without line terminator; (3) the pattern has a
-    // look-around assertion; (4) the fast path is taken; (5) `f17_mechanism`: on THIS input some line's
-    // verdict differs between "asked alone" and "asked in the whole input".
-    if d.lt == Lt::Nul
-        && !d.fast
-        && ["^", "$", "\\b", "\\B", "\\A", "\\z"].iter().any(|a| d.pat.contains(a))
-        && fast_path_taken(d, m)
-        && f17_mechanism(m, inp, 0)
-    {
-        return "nul-terminator-lf-anchored-matcher";
-    }
+    // (F17 `nul-terminator-lf-anchored-matcher` and F17b `byte-terminator-lf-anchored-matcher` are fixed,
+    // /repo a2e984b: with a terminator byte other than `\n` the slow path is taken and theorem
+    // C02_nonlf_terminator applies to every matcher -- any deviation there is a violation)
     // F2 / F24 `fastpath-matcher-not-linesafe` (recorded by C01 for the matcher; here it is the failing
     // HYPOTHESIS of theorem C02_fast).  Mechanism: with an LF / CRLF terminator the fast path asks the
     // matcher about whole buffers; a look-around that looks at the bytes around a line (Unicode `\B` /
     // `\b` next to bytes that are not UTF-8, a CRLF-aware `$`) gives a different verdict at the start of a
     // roll buffer than in the middle of the slice.
     // Test: (1) LF or CRLF terminator; (2) the pattern has a look-around assertion; (3) the fast path is
-    // taken; (4) `f17_mechanism` on THIS input: some line's verdict "asked alone" (terminator stripped, as
+    // taken; (4) `linesafe_mechanism` on THIS input: some line's verdict "asked alone" (terminator stripped, as
     // the slow path does) differs from "asked in the whole input".
     if matches!(d.lt, Lt::Lf | Lt::Crlf)
         && ["^", "$", "\\b", "\\B", "\\A", "\\z"].iter().any(|a| d.pat.contains(a))
@@ -573,21 +534,6 @@ fn classify(d: &Ds, m: &RegexMatcher, inp: &[u8], reader_strategy: bool, spec: &
         && linesafe_mechanism(m, inp, d.lt == Lt::Crlf)
     {
         return "fastpath-matcher-not-linesafe";
-    }
-    // F17b `byte-terminator-lf-anchored-matcher` (library API only: rg offers LF, CRLF and NUL).
-    // Mechanism: the same, for a terminator byte other than LF and NUL.  `Core::is_line_by_line_fast`
-    // works around grep-regex's LF-based anchors only for NUL (its FIXME); with
-    // `LineTerminator::byte(b';')` the fast path is taken even when the matcher announces `;` as its
-    // terminator, asks it about whole buffers, and `^` / `\A` … match at a buffer start that is not a
-    // line start for the regex.
-    // Test: (1) a terminator byte that is neither LF nor NUL; (2) the pattern has a look-around
-    // assertion; (3) the fast path is taken; (4) `f17_mechanism` for that byte on THIS input.
-    if d.lt == Lt::Semi
-        && ["^", "$", "\\b", "\\B", "\\A", "\\z"].iter().any(|a| d.pat.contains(a))
-        && fast_path_taken(d, m)
-        && f17_mechanism(m, inp, b';')
-    {
-        return "byte-terminator-lf-anchored-matcher";
     }
     ""
 }
@@ -1305,17 +1251,36 @@ fn run_rb(case: &str, c: &Rb, drv: &mut Driver, rep: &mut Report) {
     let log = rdr.log.clone();
     let o = |x: &Option<usize>| x.map_or("-".to_string(), |n| n.to_string());
     let eff = c.cfg.effective();
+    // Experiment switch RGV_C02_F10B_FIXED=1 (a tree patched so that a sink stop on the fast path leaves
+    // `pos` where the slow path leaves it): the real fast-path search must then equal the model's
+    // SLOW-path search event for event, byte count included -- the model is asked with the matcher's
+    // fast-path announcements removed (`slowOf`, theorem C02_fast_any_sink says the rest is equal).
+    let f10b_fixed = std::env::var("RGV_C02_F10B_FIXED").is_ok() && !c.cfg.ml;
+    let model_m = if f10b_fixed {
+        rep.branch("rb:patched-tree:compared-with-slow-path-model");
+        searcher_common::LitMatcher::new(c.m.needle.clone(), None, None, c.m.cand.clone())
+    } else {
+        searcher_common::LitMatcher::new(c.m.needle.clone(), c.m.term, c.m.nm.clone(), c.m.cand.clone())
+    };
     let model = drv.ask(&format!(
         "c02.rbl {} {} {} (script {}) {} {} {}",
         eff.to_sx(),
-        c.m.to_sx(),
+        model_m.to_sx(),
         hex(&c.inp),
         script_str(&log).replace(',', " ").replace('-', ""),
         o(&c.cap),
         o(&c.heap),
         c.sink.to_sx()
     ));
-    if imp != model {
+    // (experiment switch, multi_line requested: the downgrade decision needs the matcher's announcements, so
+    // the fast-path model is kept and a difference in nothing but the final byte count is tolerated)
+    let only_fin_count = |a: &str, b: &str| -> bool {
+        let cut = |s: &str| s.rfind(";fin ").map(|i| (s[..i].to_string(), s[i..].split(' ').skip(2).collect::<Vec<_>>().join(" ")));
+        cut(a).is_some() && cut(a) == cut(b)
+    };
+    if imp != model && std::env::var("RGV_C02_F10B_FIXED").is_ok() && c.cfg.ml && only_fin_count(&imp, &model) {
+        rep.branch("rb:patched-tree:ml-requested:byte-count-not-compared");
+    } else if imp != model {
         rep.violation(Violation {
             kind: "impl_vs_model".into(),
             class: "".into(),
@@ -1326,7 +1291,7 @@ fn run_rb(case: &str, c: &Rb, drv: &mut Driver, rep: &mut Report) {
     }
     // the C02 statement inside the model: reader run = slice run (never expected to differ when the
     // matcher is context-independent, which a literal is)
-    let slice = drv.ask(&format!("c02.slice {} {} {} {}", eff.to_sx(), c.m.to_sx(), hex(&c.inp), c.sink.to_sx()));
+    let slice = drv.ask(&format!("c02.slice {} {} {} {}", eff.to_sx(), model_m.to_sx(), hex(&c.inp), c.sink.to_sx()));
     if model != slice {
         let split = |s: &str| -> (Vec<String>, String) {
             let (e, r) = s.rsplit_once('|').unwrap_or((s, ""));
@@ -1354,9 +1319,11 @@ fn run_rb(case: &str, c: &Rb, drv: &mut Driver, rep: &mut Report) {
                 let fast = !eff.pt
                     && !(eff.son && eff.inv)
                     && match c.m.term {
-                        Some(t) => t == lt && lt != searcher_common::Lt::Nul,
+                        Some(t) => t == lt,
                         None => c.m.nm.as_ref().map_or(false, |b| b.contains(&lt.byte())),
-                    };
+                    }
+                    // /repo a2e984b: never the fast path with a terminator byte other than \n
+                    && lt.byte() == b'\n';
                 only_count && stopped && fast && (eff.inv || refused_ctx)
             }
             _ => false,
@@ -1559,33 +1526,7 @@ fn run_cl(case: &str, c: &Cl, args: &Args, rep: &mut Report) {
             continue;
         }
         if out != out0 || rc != rc0 {
-            // F17 by its second route (no -U needed): under --null-data a pattern with a haystack anchor or
-            // -w / -x makes grep-regex drop its line terminator, NUL stays in non_matching_bytes, the fast
-            // path is taken with a regex that knows nothing about NUL records. Mechanism test: the matcher
-            // rg builds for these flags gives some record a verdict alone that differs from its verdict in
-            // the whole input.
-            let null_data = match (c.flags.iter().position(|f| f == "--null-data"), c.flags.iter().position(|f| f == "--crlf")) {
-                (Some(z), Some(cr)) => z > cr,
-                (Some(_), None) => true,
-                _ => false,
-            };
-            let has = |f: &str| c.flags.iter().any(|x| x == f);
-            let class = if null_data && !has("-U") {
-                let mut b = RegexMatcherBuilder::new();
-                b.multi_line(true)
-                    .unicode(!has("--no-unicode"))
-                    .fixed_strings(has("-F"))
-                    .case_insensitive(has("-i"))
-                    .word(has("-w"))
-                    .whole_line(has("-x"))
-                    .line_terminator(Some(0));
-                match b.build(&c.pat) {
-                    Ok(m) if f17_mechanism(&m, &c.inp, 0) => "nul-terminator-lf-anchored-matcher",
-                    _ => "",
-                }
-            } else {
-                ""
-            };
+            let class = "";
             if class.is_empty() {
                 rep.branch("class:unclassified");
             } else {
@@ -1621,10 +1562,6 @@ fn gen_cl(rng: &mut Rng, big: bool) -> Cl {
         if !flags.contains(&f) {
             flags.push(f);
         }
-    }
-    // `--null-data -U` is F17 (nul-terminator-lf-anchored-matcher), recorded with its own witness
-    if flags.iter().any(|f| f == "--null-data") {
-        flags.retain(|f| f != "-U");
     }
     let text_mode = flags.iter().any(|f| f == "-a" || f == "--null-data");
     let mut alpha: Vec<u8> = b"aabc x\r".to_vec();
